@@ -39,7 +39,16 @@ def generate(rng, i, tier):
         src = rng.choice([r for r in rows[1:] if r] or [rows[0]])
         rows.insert(rng.randint(2, len(rows)), list(src))
     k = rng.choice([1, 2, 2, 3, 3, 4])
-    members = [gen.gen_member(rng, hdr, len(rows), f"m{j}", zoo_p=0.4, zoo_pool=gen.ZOO_SAFE) for j in range(k)]
+    members = []
+    for j in range(k):
+        modes = {}
+        if rng.random() < 0.15:
+            modes["return-mode"] = "no-matches"
+        if rng.random() < 0.1:
+            modes["logic-mode"] = "OR"
+        if rng.random() < 0.1:
+            modes["unmatched-mode"] = "keep"
+        members.append(gen.gen_member(rng, hdr, len(rows), f"m{j}", zoo_p=0.4, zoo_pool=gen.ZOO_SAFE, modes=modes))
     rng.shuffle(members)  # seeded member order
     return {"seed": rng.getrandbits(32), "rows": rows, "members": members, "dialect": rng.choice(DIALECTS), "policy": rng.choice([["collect", "print"], ["collect"], ["collect", "fail"], ["collect", "stop"]])}
 
@@ -53,6 +62,10 @@ def reductions(sc):
         for mm in gen.member_reductions(m):
             c = with_(sc)
             c["members"][j] = mm
+            yield c
+        if m.get("modes"):
+            c = with_(sc)
+            c["members"][j]["modes"] = {}
             yield c
     if sc["dialect"] != [",", '"']:
         yield with_(sc, dialect=[",", '"'])
@@ -186,6 +199,7 @@ def execute(sc):
         out.sig = [k, [(_features(m), m["scan"][-1:] if m["scan"] == "*" else "w") for m in members], "".join("b" if r == [] else "r" for r in rows)[:12], sc["dialect"] != [",", '"']]
         out.nontrivial = k >= 2 or bool(feats)
         out.extra["features"] = feats
+        out.probe("member with a mode set in its comment", any(m.get("modes") for m in members))
         for pr in ("file with an exact duplicate record", "a member stopped while others continue", "blank last record with last()", "advance in a file with interior blank records"):
             out.probe(pr, False)
         out.log(alone, stop_line, len(out.violations))
